@@ -27,7 +27,7 @@ ASSUMPTIONS = [
 REQUIRED = ['mech:analytic', 'mech:pkpd', 'pop', 'nopop', 'cov', 'doses', 'fixed', 'ids:int', 'ids:str', 'ids:npint',
             'custom_keys', 'explicit_map', 'nan_values', 'nan_times', 'unrelated', 'multi_output',
             'explicit_map:other_order', 'dose_row_with_measurement', 'pop_model_replaced',
-            'controller_reused', 'unrelated_row_first:default_map_single_output', 'unmeasured_individual:hierarchical', 'observable_named_like_covariate']
+            'controller_reused', 'unrelated_row_first:default_map_single_output', 'unmeasured_individual:hierarchical', 'observable_named_like_covariate', 'index:not_unique', 'two_covariate_parts']
 OBS_TIMES_POOL = 6
 
 
@@ -84,7 +84,7 @@ def _spec(draw):
     pop = None
     cov = None
     if gen.chance(draw, 0.5):
-        pop = popgen.draw_pop_for_dim(draw, n_ll, n_ids)
+        pop = popgen.draw_pop_for_dim(draw, n_ll, n_ids, max_cov_parts=2)
         cov = popgen.draw_cov_matrix(draw, n_ids, ref.pop_n_cov(pop))
         theta = popgen.draw_theta(draw, pop, n_ids, cov, positive=True)
         z = draw(gen.mat(gen.real(-2.5, 2.5), n_ids, n_ll))
@@ -186,6 +186,10 @@ def classify(spec):
                 labs.append('unmeasured_individual:hierarchical')
     if spec['pop'] is not None and spec['cov'] is not None and len(spec['cov'][0]) and d['explicit_map'] and d.get('cov_decoy'):
         labs.append('observable_named_like_covariate')
+    if d['order_seed'] % 3:
+        labs.append('index:not_unique')
+    if spec['pop'] is not None and _n_cov_parts(spec['pop']) >= 2:
+        labs.append('two_covariate_parts')
     if d['unrelated'] or d['extra_col'] or d['nan_rows']:
         labs.append('unrelated')
     if d['unrelated'] and d.get('unrelated_first'):
@@ -341,6 +345,11 @@ def build_frame(spec, deco):
         live = [b for b in live if b]
     rows = ([first] if first else []) + lead + rest
     df = pd.DataFrame(rows, columns=[K['id'], K['time'], K['obs'], K['value'], K['dose'], K['dur']])
+    # index labels as they come out of pd.concat([measurements, covariates, doses]) without ignore_index: not unique
+    if deco['order_seed'] % 3 == 1:
+        df.index = [k % 4 for k in range(len(df))]
+    elif deco['order_seed'] % 3 == 2:
+        df.index = [0] * len(df)
     if deco['extra_col']:
         df['Comment'] = ['note %d' % k for k in range(len(df))]
     if not pk:
@@ -376,6 +385,15 @@ def build_controller(spec, df, K):
     pm = None
     if spec['pop'] is not None:
         pm = ref.build_pop(spec['pop'], None, None if not popgen.has(spec['pop'], 'hetero') else spec['n_ids'])
+        cparts = _cov_parts(pm)
+        if len(cparts) >= 2:
+            # several covariate sub-models: the user names their covariates so that every name occurs once (the
+            # columns of the covariate matrix follow the order of the sub-models)
+            off = 0
+            for q in cparts:
+                k = q.n_covariates()
+                q.set_covariate_names(['Cov. %d' % (off + c + 1) for c in range(k)])
+                off += k
     omap = _observables(spec) if spec['deco']['explicit_map'] else None
     if omap is not None and len(omap) >= 2:
         # a dictionary has no meaningful order: its keys are listed in another order than the model's outputs
@@ -434,6 +452,17 @@ def build_controller(spec, df, K):
     elif pm is not None and not spec['deco']['pop_first']:
         ctrl.set_population_model(pm)
     return ctrl
+
+
+def _n_cov_parts(pop):
+    k = pop['kind']
+    if k == 'cov':
+        return 1
+    if k == 'red':
+        return _n_cov_parts(pop['base'])
+    if k == 'comp':
+        return sum(_n_cov_parts(q) for q in pop['parts'])
+    return 0
 
 
 def _cov_parts(m):
@@ -522,7 +551,9 @@ def check(case):
         nb = 0
     else:
         nb, nt, hd = ref.hier_layout(pop, n_ids)
-        top_names = ref.pop_names(pop, n_ids, ll_names)
+        n_cov_parts = _n_cov_parts(pop)
+        top_names = ref.pop_names(pop, n_ids, ll_names,
+                                  ['Cov. %d' % (c + 1) for c in range(ref.pop_n_cov(pop))] if n_cov_parts >= 2 else None)
     n_top = len(top_names)
 
     with case.clause('names_before_fixing'):
